@@ -1,4 +1,4 @@
-\* intended design, thorough tier: 3 nodes, 5 seconds, 6 operations
+\* intended design, thorough tier: 3 nodes, 4 seconds, 6 operations
 SPECIFICATION Spec
 CONSTANTS
   Unit = 1
@@ -6,8 +6,8 @@ CONSTANTS
   EstAge = 2
   VetAge = 3
   DaySecs = 2
-  Nodes = {1, 2, 3}
-  MaxT = 5
+  Nodes = {n1, n2, n3}
+  MaxT = 4
   MaxOps = 6
   MaxRejoin = 2
   ReplSet = {0, 1}
@@ -23,6 +23,7 @@ CONSTANTS
   AsImplemented_RelaxedByReplOnly = FALSE
   AsImplemented_HugeRetentionPanics = FALSE
   Variant_RejoinResetsAge = FALSE
+SYMMETRY Perms
 CONSTRAINT Bounded
 INVARIANTS TypeOK CategoryMonotone TrustMonotone TrustMatchesCategory ListsExact VerifyAgreesWithLists BasicAlwaysOpen VerifyFlagsAgree
            ReasonIffFails RelaxedAdmitsAll StatsAddUp RegisterIdempotent RejoinCounts RegisterNew DepartIdempotent DepartMarks
